@@ -23,14 +23,14 @@ TRUSTED_BASE = [
     "translator checks/C12.py:gen (regex scrape of MAX_LOAD_FACTOR, GROW_RATE, INIT_CAPACITY in hashmap.nelua; initial capacity and growth multiplier in vector.nelua/sequence.nelua/stringbuilder.nelua; hash seed in hash.nelua)",
     "extraction: Require Extraction + ExtrOcamlBasic only; no Extract Constant of our own; Z/nat stay Coq inductives",
     "ocaml/zutil.ml + coq/C12/driver.ml (text <-> extracted values, op decoding), harness/C12/driver.nelua (op decoding, token<->value maps, dumps through the public observers), OCaml 4.13.1, gcc, the Nelua compiler itself (compiles the driver)",
-    "modelled rather than verified: lib/*.nelua are mirrored by hand in coq/C12/Model.v, one Gallina function per source function (loops as structural recursion or fuel proved sufficient); two loops are modelled by their specification rather than step by step: the in-place shift of filled nodes in hashmap:rehash (stable filter + zeroed tail) and memory.move/spancopy (block overwrite); list nodes live in an arena indexed by allocation order instead of addresses; the tie is the step-by-step correspondence run on every check",
+    "modelled rather than verified: lib/*.nelua are mirrored by hand in coq/C12/Model.v, one Gallina function per source function (loops as structural recursion or fuel proved sufficient, including the in-place compaction of hashmap:rehash and memmove element by element, both proved equal to their block specification); memory.zero/set and spancopy are block operations; list nodes live in an arena indexed by allocation order instead of addresses; the tie is the step-by-step correspondence run on every check",
 ]
 ASSUMPTIONS = [
     "sizes are exact naturals in the model: a container whose element count, capacity or size*100 would wrap a 64-bit usize cannot be allocated (hashmap roundpow2 is modelled mod 2^64 and rehash returns a distinguished Overflow outcome if it wrapped)",
     "allocation never fails (xspanrealloc raises an error otherwise); freshly (re)allocated cells hold unspecified values that the containers never expose",
     "element equality == and hash of the element type are the functions teqb/khash of the model: the hashmap theorems need == symmetric and transitive (reflexivity is not assumed: NaN keys are covered) and a hash that respects it (proved for the derived hashes of hash.nelua: integers, booleans, floats incl. +-0, record{integer,number})",
     "negative float -> usize conversion in hash.hash wraps like x86-64 gcc (C leaves it undefined); compared with the implementation on every run",
-    "correspondence is differential testing of the model against the compiled library, not a proof that model = code",
+    "correspondence is differential testing of the model against the compiled library, not a proof that model = code; every valid history is additionally replayed on a build with -fsanitize=address,undefined and the GC disabled (-P nogc: the conservative collector cannot run under ASan's fake stacks) (a test, not an obligation)",
 ]
 
 NZ = 1 << 40
@@ -40,10 +40,10 @@ KINDS = {1: "vector", 2: "sequence", 3: "list", 4: "hashmap", 5: "hashmap-weakha
          9: "stringbuilder-limited-allocator", 10: "vector-limited-allocator"}
 TYPES = {0: "integer", 1: "string", 2: "record", 3: "number"}
 OPN = {
-    1: {1: "push", 2: "pop", 3: "insert", 4: "remove", 5: "removevalue", 6: "removeif", 7: "resize", 8: "reserve", 9: "clear", 10: "copy", 11: "at", 12: "assign"},
-    3: {1: "pushfront", 2: "pushback", 3: "popfront", 4: "popback", 5: "insertbefore", 6: "erasevalue", 7: "find", 8: "clear", 9: "empty", 10: "erase(nilptr)"},
-    4: {1: "set", 2: "get", 3: "peek", 4: "has", 5: "has_and_get", 6: "remove", 7: "erase", 8: "clear", 9: "reserve", 10: "rehash", 11: "erase-while-iterating", 12: "next(k)", 13: "next()", 14: "probe", 15: "mpairs-update", 16: "next-traversal"},
-    6: {1: "write", 2: "writebyte", 3: "prepare/commit", 4: "rollback", 5: "resize", 6: "clear", 7: "promote", 8: "commit-over", 9: "prepare"},
+    1: {1: "push", 2: "pop", 3: "insert", 4: "remove", 5: "removevalue", 6: "removeif", 7: "resize", 8: "reserve", 9: "clear", 10: "copy", 11: "at", 12: "assign", 13: "destroy", 14: "convert", 15: "unpack"},
+    3: {1: "pushfront", 2: "pushback", 3: "popfront", 4: "popback", 5: "insertbefore", 6: "erasevalue", 7: "find", 8: "clear", 9: "empty", 10: "erase(nilptr)", 11: "destroy"},
+    4: {1: "set", 2: "get", 3: "peek", 4: "has", 5: "has_and_get", 6: "remove", 7: "erase", 8: "clear", 9: "reserve", 10: "rehash", 11: "erase-while-iterating", 12: "next(k)", 13: "next()", 14: "probe", 15: "mpairs-update", 16: "next-traversal", 17: "destroy"},
+    6: {1: "write", 2: "writebyte", 3: "prepare/commit", 4: "rollback", 5: "resize", 6: "clear", 7: "promote", 8: "commit-over", 9: "prepare", 10: "destroy"},
     7: {1: "at", 2: "sub"},
 }
 OPN[2] = OPN[1]
@@ -53,7 +53,7 @@ OPN[10] = OPN[1]
 MSG = {
     "PopEmpty": "attempt to pop an empty", "Pos": "position out of bounds", "Index": "index out of range",
     "NoSpace": "not enough space in string buffer", "InvalidKey": "attempt to use next for an invalid key in hashmap",
-    "ListEmpty": "list is empty", "NilNode": "attempt to erase a nilptr node",
+    "ListEmpty": "list is empty", "NilNode": "attempt to erase a nilptr node", "Unpack": "unpack out of range",
 }
 
 
@@ -193,6 +193,14 @@ class OVec:
             p = a - base
             if p < 0 or p >= len(l): raise Violation("Pos")
             l[p] = b; return "-"
+        if op == 13:
+            self.l = []; self.z = 0; return "-"
+        if op == 14:
+            self.l = [b + i * c for i in range(a)]; self.z = 0; return "-"
+        if op == 15 and base == 1:
+            i, j = [(1, 1), (1, 3), (2, 3)][a]
+            if not (i >= 1 and j <= len(l) and i <= j): raise Violation("Unpack")
+            return ",".join(str(x) for x in l[i - 1:j])
         raise KeyError(op)
 
     def contents(self):
@@ -239,6 +247,8 @@ class OList:
             self.l = []; return "-"
         if op == 9: return "1" if not l else "0"
         if op == 10: raise Violation("NilNode")
+        if op == 11:
+            self.l = []; return "-"
         raise KeyError(op)
 
     def contents(self):
@@ -304,6 +314,8 @@ class OMap:
             # the traversal calls next(m, k) with every visited key: a NaN key is an invalid key for next
             if self.nan: raise Violation("InvalidKey")
             return ("v", self.pairs())
+        if op == 17:
+            d.clear(); self.nan = []; return "-"
         raise KeyError(op)
 
 
@@ -355,6 +367,8 @@ class OSb:
         if op == 9:
             if int(impl_ret) < a: return ("bad", "prepare(%d) returned a span of %s bytes" % (a, impl_ret))
             return impl_ret
+        if op == 10:
+            self.l = []; return "-"
         raise KeyError(op)
 
 
@@ -463,8 +477,14 @@ def gen_history(rng, kind, typ, nsteps, maxsize, big=False):
                 elif r < 0.82 and kind == 2: emit(rng.choice([11, 12]), 0, pick())
                 elif r < 0.86: emit(8, rng.choice([0, n, n + 1, 2 * n + 1, target]))
                 elif r < 0.90: emit(10)
-                elif r < 0.93: emit(7, rng.randrange(0, n + 1))
-                elif r < 0.95: emit(9)
+                elif r < 0.92: emit(7, rng.randrange(0, n + 1))
+                elif r < 0.935: emit(9)
+                elif r < 0.95: emit(13)
+                elif r < 0.965:
+                    b0 = pick()     # tokens b0, b0+c, ...: only plain tokens form a progression of valid tokens
+                    emit(14, rng.choice([0, 1, 2, 3, 5, 8, min(maxsize, target)]), b0, 0 if b0 >= NZ else rng.choice([0, 1, 1, 3]))
+                elif r < 0.985 and kind == 2 and n >= 1:
+                    emit(15, rng.choice([0] + ([1, 2] if n >= 3 else [])))
                 else: emit(1, pick())
         elif kind == 3:
             if n >= maxsize: grow = False
@@ -478,7 +498,8 @@ def gen_history(rng, kind, typ, nsteps, maxsize, big=False):
                 elif r < 0.65: emit(6, pick() if not n or rng.random() < 0.3 else rng.choice(o.l))
                 elif r < 0.85: emit(7, pick() if not n or rng.random() < 0.3 else rng.choice(o.l))
                 elif r < 0.92: emit(9)
-                elif r < 0.95: emit(8)
+                elif r < 0.94: emit(8)
+                elif r < 0.955: emit(11)
                 else: emit(2, pick())
         elif kind in (4, 5):
             if n >= maxsize: grow = False
@@ -503,7 +524,8 @@ def gen_history(rng, kind, typ, nsteps, maxsize, big=False):
                 elif r < 0.78:
                     lo = min(univ[:8]) ; emit(14, lo, lo + rng.randrange(0, 12))
                 elif r < 0.82: emit(15, rng.randrange(1, 5))
-                elif r < 0.84: emit(8)
+                elif r < 0.835: emit(8)
+                elif r < 0.845: emit(17)
                 elif r < 0.9: emit(1, alias(anykey()), rng.randrange(0, 1000))
                 else: emit(2, alias(anykey()))
     return ops
@@ -559,8 +581,10 @@ def gen_sb_history(rng, nsteps, maxsize, limit=None):
             elif q < 0.5:
                 n = rng.randrange(0, lo + 1); ops.append((5, n, 0, 0)); lo = hi = n
             elif q < 0.62: ops.append((9, rng.choice([0, 1, 7, 100]), 0, 0))
-            elif q < 0.7:
+            elif q < 0.68:
                 ops.append((6, 0, 0, 0)); lo = hi = 0
+            elif q < 0.7:
+                ops.append((10, 0, 0, 0)); lo = hi = 0
             elif q < 0.78 and limit is None:
                 ops.append((7, 0, 0, 0)); lo = hi = 0
             else:
@@ -595,6 +619,8 @@ def gen_violation(rng, kind, typ):
               ((12, base + sz + base + rng.randrange(0, 50), 9, 0), "Pos")]
         if kind == 2:
             c += [((4, 0, 0, 0), "Pos"), ((3, 0, 5, 0), "Pos")]
+            if sz < 3: c += [((15, 1, 0, 0), "Unpack"), ((15, 2, 0, 0), "Unpack")]
+            if sz < 1: c += [((15, 0, 0, 0), "Unpack")]
             # position size+1 is the auto-append slot for at/assign: not a violation (filtered below)
         c = [x for x in c if x[0] is not None and not (kind == 2 and x[0][0] in (11, 12) and x[0][1] == sz + 1)]
         if sz and rng.random() < 0.3:
@@ -868,10 +894,13 @@ def correspond(ctx):
                 a = rng.randrange(0, n + 1); ops.append((2, a, rng.randrange(a, n + 1), 0))
         hist.append({"kind": 7, "typ": 0, "n": n, "ops": ops, "dump": 0, "stream": "span"})
     lines = []
-    for h in hist:
+    owners = []     # for every line the implementation prints: (history index, step index or -1 for the header)
+    for hi_, h in enumerate(hist):
         lines += fmt_ops(h["kind"], h["typ"], h["ops"], h["n"], h["dump"])
+        owners += [(hi_, -1)] + [(hi_, k) for k in range(len(h["ops"]))]
     hash_cases = gen_hash_cases(rng, ctx.scale(300, 20000))
     lines += fmt_ops(8, 0, hash_cases)
+    batch_lines = list(lines)
     rc1, il, ierr, rc2, ml, merr = run_batch(drv_impl, drv_model, lines, timeout=ctx.scale(150, 1500))
     nexp = sum(1 + len(h["ops"]) for h in hist) + 1 + len(hash_cases)
     if rc2 != 0 or len(ml) < nexp:
@@ -1068,6 +1097,43 @@ def correspond(ctx):
                 n_mismatch += 1
                 ctx.violation("model-mismatch:violating-prefix.%s" % KINDS[kind], "correspondence", "prefix of a violating history differs between model and implementation",
                               detail={"history": describe(kind, typ, ops, len(ops) - 1), "model": ml2[:len(ops)], "implementation": il2[:len(ops)]}, failing_input=False)
+    # ---------------- the same histories under AddressSanitizer + UBSan (a test, not an obligation)
+    asan_info = {"ran": False}
+    if not pos_dead and n_oracle == 0:
+        drv_asan = drv_impl + "-asan"
+        if not os.path.exists(drv_asan):
+            cdir = os.path.join(work, "nelua-cache-asan-%d" % os.getpid())
+            rc, o_, e_ = vlib.nelua_build(os.path.join(vlib.VERIF, "harness", ID, "driver.nelua"), drv_asan, cache_dir=cdir,
+                                          extra=["-P", "nogc", "--cflags=-fsanitize=address,undefined -fno-omit-frame-pointer -g"])
+            import shutil
+            shutil.rmtree(cdir, ignore_errors=True)
+            if rc != 0 or not os.path.exists(drv_asan):
+                ctx.note("ASan build of the driver failed: %s" % (o_ + e_)[-400:])
+                drv_asan = None
+        if drv_asan:
+            text = "\n".join(["-1 0 0 0"] + batch_lines) + "\n"
+            rc3, aout, aerr = vlib.sh([drv_asan], input=text, timeout=ctx.scale(600, 3000),
+                                      env={"ASAN_OPTIONS": "detect_leaks=0", "UBSAN_OPTIONS": "halt_on_error=1:print_stacktrace=0"})
+            if os.environ.get("VERIF_C12_DEBUG"):
+                open(os.path.join(work, "asan_input.txt"), "w").write(text)
+            al_ = [x for x in aout.split("\n")]
+            if al_ and al_[-1] == "":
+                al_ = al_[:-1]
+            report = [x for x in aerr.split("\n") if "Sanitizer" in x or "runtime error" in x]
+            asan_info = {"ran": True, "exit_status": rc3, "lines": len(al_), "sanitizer_reports": report[:5],
+                         "identical_to_plain_build": al_ == il[:len(al_)] and len(al_) == len(il)}
+            if rc3 != 0 or report:
+                k = min(len(al_), len(owners) - 1)
+                hi_, st = owners[k] if owners else (0, -1)
+                h = hist[hi_]
+                st = max(st, 0)
+                n_oracle += 1
+                ctx.violation("sanitizer:" + history_key(h["kind"], h["typ"], h["ops"], st, h["n"]), "oracle",
+                              "%s step %d: the sanitizer build stops here (exit status %s): %s" % (KINDS[h["kind"]], st, rc3, (report or [aerr.strip()[-200:]])[0][:300]),
+                              detail={"history": describe(h["kind"], h["typ"], h["ops"], st), "stderr": aerr[-1500:],
+                                      "replay": "\n".join(fmt_ops(h["kind"], h["typ"], h["ops"][:st + 1], h["n"], h["dump"]))})
+            elif not asan_info["identical_to_plain_build"]:
+                ctx.violation("sanitizer-output-differs", "harness", "the sanitizer build prints different results than the plain build (%d vs %d lines)" % (len(al_), len(il)), failing_input=False)
     # ---------------- vector over an allocator refusing requests of `limit` bytes or more: the operation whose growth
     # needs that much must raise 'out of memory' (xspanrealloc), everything before it behaves as usual
     n_oom = 0
@@ -1125,6 +1191,7 @@ def correspond(ctx):
         "histories": len(hist),
         "violating_histories": n_viol,
         "out_of_memory_histories": n_oom,
+        "sanitizer_run": asan_info,
         "stringbuilder_reported_allocation_failures": sb_failures,
         "hash_cases": n_hash,
         "oracle_failures": n_oracle,
@@ -1136,7 +1203,7 @@ def correspond(ctx):
 
 
 UNPROVED = [
-    "vector/sequence __convert (initialisation from arrays), sequence:unpack, destroy/__close: not modelled",
+    "list __convert (needs a fixed-size array literal) and __close (an alias of destroy) are not exercised; vector/sequence __convert is exercised through conversion from a span",
     "stringbuilder write of non-byte arguments (integer/float/boolean formatting), writef/formatarg, __tostring: not modelled (strconv/strprintf are C13/C14 territory)",
     "hash.hash for pointers, unions, arrays, spans and records with __hash: not modelled; the string hash (hash.long) is modelled and corresponds, its coherence is trivial (byte-wise equality)",
     "allocation failure: modelled and proved for stringbuilder (sb_step_a); for vector only the correspondence stream checks that the growth needing a refused block raises 'out of memory' (sequence/hashmap/list use the same xspanrealloc / new and are not exercised with a refusing allocator)",
